@@ -89,7 +89,10 @@ def replay_file(prop, path):
         doc = json.load(f)
     spec = doc["spec"] if "spec" in doc else doc
     res = mod.replay(spec)
-    v = res.violation
+    want = doc.get("violation") or {}
+    v = res.find((want.get("clause"), want.get("culprit_kind"))) if want else None
+    if v is None:
+        v = res.violation
     out = {"reproduced": v is not None, "digest": res.digest}
     if v is not None:
         out.update({"clause": v.clause, "culprit": v.culprit, "culprit_kind": v.culprit_kind, "detail": v.detail})
@@ -246,8 +249,8 @@ def main(argv=None):
         idx, spec, vj = cand
         pre_entry = findings.find(entries, {"spec": spec, "violation": vj})
 
-        def rf(s):
-            return mod.replay(s).violation
+        def rf(s, key=key):
+            return mod.replay(s).find(key)
 
         small = spec
         used = 0
@@ -263,13 +266,13 @@ def main(argv=None):
         except Exception:
             errors.append((idx, "replay of minimised spec raised: " + traceback.format_exc()))
             continue
-        v = res.violation
-        if v is None or v.key() != key:
+        v = res.find(key)
+        if v is None:
             # fall back to the unminimised execution
             small = spec
             res = mod.replay(json.loads(json.dumps(small)))
-            v = res.violation
-            if v is None or v.key() != key:
+            v = res.find(key)
+            if v is None:
                 errors.append((idx, f"violation {key} of run {idx} does not reproduce from its recorded spec"))
                 continue
         vj2 = v.to_json()
